@@ -297,6 +297,19 @@ func checkPrintCase(res *Result, pc *printCase, rng *rand.Rand, full bool, tag s
 		}
 		return ok, prop, want, got
 	}
+	if pc.Mode == "race" && pc.Pre == 0 {
+		// the report cut after its first operation (the stream ends there): what was parsed is still a race
+		for i := 3; i < len(pc.Lines); i++ {
+			if pc.Lines[i].Body == "blank" {
+				part := cat2(lines[:i])
+				s, _, _, pan := scanOnce(newSource(part, nil, 0, nil, false), discard{}, opts)
+				if pan == "" && s != nil && len(s.Goroutines) == 1 && !s.IsRace() {
+					res.violation(Finding{Property: "C08", Aspect: "israce-partial", What: tag + ": a race report of which only the first operation arrived yields a goroutine with its race address, but IsRace() is false", Input: part})
+				}
+				break
+			}
+		}
+	}
 	for _, d := range deliveries(lens, rng, full) {
 		src := newSource(data, d.plan, d.dflt, nil, d.withData)
 		src.keepLog = true
@@ -366,4 +379,12 @@ func init() {
 		wg.Wait()
 		return res.write(*c.out)
 	})
+}
+
+func cat2(ls [][]byte) []byte {
+	var b []byte
+	for _, l := range ls {
+		b = append(b, l...)
+	}
+	return b
 }
